@@ -317,7 +317,7 @@ fn c16_q_roundtrip_ctx_floats() {
 #[cfg_attr(kani, kani::proof)]
 #[cfg_attr(kani, kani::unwind(20))]
 #[cfg_attr(not(kani), test)]
-fn c16_q_derived_struct_roundtrip_timed_req() {
+fn c16_x_derived_struct_roundtrip_timed_req() {
     use crate::im::TimedReq;
     use crate::tlv::{FromTLV, ToTLV};
     let v = TimedReq {
